@@ -160,7 +160,7 @@ func stage2ObserveMany(rps []*Replay) []bool {
 		}
 	}
 	var mainSrc bytes.Buffer
-	mainSrc.WriteString("package main\n\nimport (\n\t\"encoding/json\"\n\t\"fmt\"\n\t\"os\"\n\tyaml \"gopkg.in/yaml.v3\"\n")
+	mainSrc.WriteString("package main\n\nimport (\n\t\"encoding/json\"\n\t\"fmt\"\n\t\"os\"\n\t\"reflect\"\n\t\"strings\"\n\tyaml \"gopkg.in/yaml.v3\"\n")
 	for _, p := range pkgs {
 		if used[p.alias] {
 			fmt.Fprintf(&mainSrc, "\t%s %q\n", p.alias, p.imp)
@@ -173,14 +173,16 @@ func stage2ObserveMany(rps []*Replay) []bool {
 		if r.Format == "yaml" {
 			dec = "yaml.Unmarshal(doc, &v)"
 		}
-		fmt.Fprintf(&mainSrc, "\t{\n\t\tdoc, _ := os.ReadFile(%q)\n\t\trun(%d, %d, func() (error, string) {\n\t\t\tvar v r%dg%d.%s\n\t\t\terr := %s\n\t\t\tb, _ := json.Marshal(&v)\n\t\t\treturn err, string(b)\n\t\t})\n\t}\n", docFile, r.RI, r.K, r.RI, r.H, r.Typ, dec)
+		fmt.Fprintf(&mainSrc, "\t{\n\t\tdoc, _ := os.ReadFile(%q)\n\t\trun(%d, %d, func() (error, string) {\n\t\t\tvar v r%dg%d.%s\n\t\t\terr := %s\n\t\t\tb, _ := json.Marshal(&v)\n\t\t\tif err == nil {\n\t\t\t\tvar in interface{}\n\t\t\t\tif json.Unmarshal(doc, &in) == nil {\n\t\t\t\t\tfmt.Printf(\"ZZMB r=%%d k=%%d keeps=%%v\\n\", %d, %d, zzKeeps(reflect.ValueOf(&v).Elem(), in, reflect.TypeOf(v).PkgPath()))\n\t\t\t\t}\n\t\t\t}\n\t\t\treturn err, string(b)\n\t\t})\n\t}\n", docFile, r.RI, r.K, r.RI, r.H, r.Typ, dec, r.RI, r.K)
 	}
 	mainSrc.WriteString("}\n")
+	mainSrc.WriteString(zzKeepsSrc)
 	_ = os.WriteFile(filepath.Join(scratch, "main.go"), mainSrc.Bytes(), 0o644)
 	status := make([]map[string]int, len(rps))
 	msgs := make([]map[string]string, len(rps))
+	mbs := make([]map[string]bool, len(rps))
 	for i := range rps {
-		status[i], msgs[i] = map[string]int{}, map[string]string{}
+		status[i], msgs[i], mbs[i] = map[string]int{}, map[string]string{}, map[string]bool{}
 	}
 	if len(rs) > 0 {
 		cmd := exec.Command("go", "run", ".")
@@ -188,6 +190,15 @@ func stage2ObserveMany(rps []*Replay) []bool {
 		cmd.Env = goEnv()
 		out, err := cmd.CombinedOutput()
 		for _, line := range strings.Split(string(out), "\n") {
+			if strings.HasPrefix(line, "ZZMB ") {
+				var ri, k int
+				var keeps bool
+				if _, err := fmt.Sscanf(line, "ZZMB r=%d k=%d keeps=%t", &ri, &k, &keeps); err == nil && ri < len(rps) {
+					logs[ri].WriteString(line + "\n")
+					mbs[ri][strconv.Itoa(k)] = keeps
+				}
+				continue
+			}
 			if !strings.HasPrefix(line, "ZZS2 ") {
 				if strings.TrimSpace(line) != "" {
 					for i := range logs {
@@ -224,7 +235,7 @@ func stage2ObserveMany(rps []*Replay) []bool {
 		if !did[i] {
 			continue
 		}
-		obs := map[string]interface{}{"s2ok": s2ok[i], "s2err": s2err[i], "status": status[i], "msg": msgs[i]}
+		obs := map[string]interface{}{"s2ok": s2ok[i], "s2err": s2err[i], "status": status[i], "msg": msgs[i], "marshalback": mbs[i]}
 		ob, _ := json.MarshalIndent(obs, "", " ")
 		_ = os.WriteFile(filepath.Join(rp.Dir, "observed.json"), ob, 0o644)
 		_ = os.WriteFile(filepath.Join(rp.Dir, "stage2_output.txt"), logs[i].Bytes(), 0o644)
@@ -232,6 +243,189 @@ func stage2ObserveMany(rps []*Replay) []bool {
 	}
 	return did
 }
+
+const zzKeepsSrc = `
+// zzKeeps: native marshal-back oracle (mirror of the engine's marshalKeeps): json.Marshal(&v)
+// reproduces every non-empty value of the input that the Go type declares.
+func zzEmptyIn(in interface{}) bool {
+	switch x := in.(type) {
+	case nil:
+		return true
+	case float64:
+		return x == 0
+	case string:
+		return x == ""
+	case bool:
+		return !x
+	case []interface{}:
+		return len(x) == 0
+	case map[string]interface{}:
+		return len(x) == 0
+	}
+	return false
+}
+
+func zzEmptyGo(v reflect.Value) bool {
+	switch v.Kind() {
+	case reflect.Array, reflect.Map, reflect.Slice, reflect.String:
+		return v.Len() == 0
+	case reflect.Bool:
+		return !v.Bool()
+	case reflect.Int, reflect.Int8, reflect.Int16, reflect.Int32, reflect.Int64:
+		return v.Int() == 0
+	case reflect.Uint, reflect.Uint8, reflect.Uint16, reflect.Uint32, reflect.Uint64, reflect.Uintptr:
+		return v.Uint() == 0
+	case reflect.Float32, reflect.Float64:
+		return v.Float() == 0
+	case reflect.Interface, reflect.Ptr:
+		return v.IsNil()
+	}
+	return false
+}
+
+func zzKeeps(v reflect.Value, in interface{}, genPkg string) bool {
+	if in == nil {
+		return true
+	}
+	t := v.Type()
+	if t.Kind() != reflect.Ptr && t.Name() != "" && t.PkgPath() != genPkg && t.PkgPath() != "" {
+		return true // library type with its own text format: opaque
+	}
+	if v.CanAddr() && t.Kind() != reflect.Ptr {
+		if m, ok := v.Addr().Interface().(json.Marshaler); ok {
+			b, err := m.MarshalJSON()
+			if err != nil {
+				return false
+			}
+			var out interface{}
+			if json.Unmarshal(b, &out) != nil {
+				return false
+			}
+			return reflect.DeepEqual(out, in)
+		}
+	}
+	switch t.Kind() {
+	case reflect.Ptr:
+		if v.IsNil() {
+			return false
+		}
+		return zzKeeps(v.Elem(), in, genPkg)
+	case reflect.Interface:
+		if v.IsNil() {
+			return false
+		}
+		b, err := json.Marshal(v.Interface())
+		var out interface{}
+		return err == nil && json.Unmarshal(b, &out) == nil && reflect.DeepEqual(out, in)
+	case reflect.String:
+		s, ok := in.(string)
+		return ok && s == v.String()
+	case reflect.Bool:
+		b, ok := in.(bool)
+		return ok && b == v.Bool()
+	case reflect.Int, reflect.Int8, reflect.Int16, reflect.Int32, reflect.Int64:
+		f, ok := in.(float64)
+		return ok && f == float64(v.Int())
+	case reflect.Uint, reflect.Uint8, reflect.Uint16, reflect.Uint32, reflect.Uint64:
+		f, ok := in.(float64)
+		return ok && f == float64(v.Uint())
+	case reflect.Float32, reflect.Float64:
+		f, ok := in.(float64)
+		return ok && f == v.Float()
+	case reflect.Slice:
+		xs, ok := in.([]interface{})
+		if !ok || v.IsNil() || len(xs) != v.Len() {
+			return false
+		}
+		for k := range xs {
+			if !zzKeeps(v.Index(k), xs[k], genPkg) {
+				return false
+			}
+		}
+		return true
+	case reflect.Map:
+		m, ok := in.(map[string]interface{})
+		if !ok || v.IsNil() {
+			return false
+		}
+		it := v.MapRange()
+		for it.Next() {
+			child, has := m[it.Key().String()]
+			if !has {
+				return false
+			}
+			e := reflect.New(t.Elem()).Elem()
+			e.Set(it.Value())
+			if !zzKeeps(e, child, genPkg) {
+				return false
+			}
+		}
+		return true
+	case reflect.Struct:
+		m, ok := in.(map[string]interface{})
+		if !ok {
+			return false
+		}
+		return zzStructKeeps(v, m, genPkg)
+	}
+	return true
+}
+
+func zzStructKeeps(v reflect.Value, m map[string]interface{}, genPkg string) bool {
+	t := v.Type()
+	for k := 0; k < t.NumField(); k++ {
+		f := t.Field(k)
+		tag := f.Tag.Get("json")
+		if tag == "-" {
+			continue
+		}
+		if f.Anonymous && tag == "" {
+			fv := v.Field(k)
+			if fv.Kind() == reflect.Ptr {
+				if fv.IsNil() {
+					continue
+				}
+				fv = fv.Elem()
+			}
+			if fv.Kind() == reflect.Struct {
+				if !zzStructKeeps(fv, m, genPkg) {
+					return false
+				}
+				continue
+			}
+		}
+		if f.PkgPath != "" {
+			continue
+		}
+		name, omit := f.Name, false
+		if tag != "" {
+			parts := strings.Split(tag, ",")
+			if parts[0] != "" {
+				name = parts[0]
+			}
+			for _, p := range parts[1:] {
+				if p == "omitempty" {
+					omit = true
+				}
+			}
+		}
+		child, has := m[name]
+		if !has {
+			continue
+		}
+		if omit && zzEmptyGo(v.Field(k)) {
+			if !zzEmptyIn(child) {
+				return false
+			}
+			continue
+		}
+		if !zzKeeps(v.Field(k), child, genPkg) {
+			return false
+		}
+	}
+	return true
+}
+`
 
 func stage2ObserveOld(rp *Replay) (bool, string) {
 	srcs, _ := filepath.Glob(filepath.Join(rp.Dir, "s2_*.go.txt"))
